@@ -57,13 +57,57 @@ REL = 1e-9
 W = "weight"
 NODE_STR = ["a", "b", "c", "d", "e", "n1", "n10", "n2", "x", "yy", "B", "_z"]
 EDGE_STR = ["e0", "e1", "e2", "f", "g", "h", "e10", "zz", "q", "r", "E", "10"]
-KIND_TAG = {"perm": "permuted", "gap": "gapped", "str": "strings"}
+KIND_TAG = {"perm": "permuted", "gap": "gapped", "str": "strings", "mixed": "mixed", "bigint": "bigints", "float": "floats",
+            "npint": "numpy", "rtstr": "rtstrings", "tuple": "tuples"}
+NODE_KINDS = ("perm", "gap", "str", "mixed", "bigint", "float", "npint", "rtstr", "tuple")
+EDGE_KINDS = ("perm", "gap", "str", "mixed", "bigint", "float", "npint", "rtstr", "tuple")
+_BIG = list(range(1001, 1400)) + [2**33 + i for i in range(20)] + [-1500 - i for i in range(20)]
+_FLOATS = [0.5, 1.5, 2.0, 3.0, -1.0, 2.25, 7.0, 10.0, 0.1, 1000.0, -0.75, 4.0, 1e-3, 6.5]
+_RTSTR = ["node_1", "node_10", "node_2", "alpha", "beta", "Gamma", "x y", "\u00fc-1", "10", "007", "n.a", "__", "1e3", "None"]
+_TUPLES = [(a, b) for a in range(4) for b in range(3)] + [(5,), (1, 2, 3), (0, 0, 1), (-1, 7)]
+
+
+def _pool(kind, role, rng):
+    """Label pool of a relabel kind (role: 'node' | 'edge')."""
+    if kind == "gap":
+        return list(range(-5, 40)) if role == "node" else list(range(-3, 30))
+    if kind == "str":
+        return NODE_STR if role == "node" else EDGE_STR
+    if kind == "bigint":
+        return _BIG
+    if kind == "float":
+        return _FLOATS
+    if kind == "npint":
+        return [np.int64(v) for v in list(range(-5, 40)) + [1001, 1002, 2**33]]
+    if kind == "rtstr":
+        return _RTSTR
+    if kind == "tuple":
+        return _TUPLES
+    raise ValueError(kind)
+
+
+def fresh(x):
+    """An equal but (where CPython allows it) not identical label: every use of a label in the construction of the
+    relabelled network and in arguments is a separately created object, as labels read from a file would be."""
+    if isinstance(x, (bool, np.generic)):
+        return type(x)(x)
+    if isinstance(x, int):
+        return int(str(x))
+    if isinstance(x, float):
+        return float(repr(x))
+    if isinstance(x, str):
+        return "".join([x[:1], x[1:]]) if len(x) > 1 else x
+    if isinstance(x, tuple):
+        return tuple(fresh(y) for y in x)
+    return x
+
+
 ASPECTS = ("node-labels", "edge-ids", "node-order", "edge-order", "member-order")
 
 
 def plan(tier):
     if tier == "quick":
-        return {"combined": 160, "node-labels": 70, "edge-ids": 90, "order": 80, "sequence": 60}
+        return {"combined": 160, "node-labels": 72, "edge-ids": 81, "order": 60, "sequence": 60}
     return {"combined": 28000, "node-labels": 10000, "edge-ids": 14000, "order": 12000, "sequence": 8000}
 
 
@@ -132,12 +176,14 @@ def _sequence_case(mon, idx, rng):
 
 def floors(tier):
     q = tier == "quick"
-    f = {f"cmp:{m}": (380 if q else 60000) for m in MEASURES}
-    f.update({f"value:{m}": (60 if q else 9000) for m in VALUE_FLOOR})
-    f.update({f"nkind:{k}": (50 if q else 8000) for k in ("perm", "gap", "str")})
-    f.update({f"ekind:{k}": (50 if q else 8000) for k in ("perm", "gap", "str")})
-    f.update({f"aspect:{a}": (150 if q else 25000) for a in ASPECTS})
-    f["cases-compared"] = 380 if q else 60000
+    # every floor is <= half of what the smallest observed run delivers (kinds are assigned by case index, so the
+    # counts hardly depend on the seed)
+    f = {f"cmp:{m}": (160 if q else 28000) for m in MEASURES}
+    f.update({f"value:{m}": (50 if q else 8000) for m in VALUE_FLOOR})
+    f.update({f"nkind:{k}": (11 if q else 2000) for k in NODE_KINDS})
+    f.update({f"ekind:{k}": (11 if q else 2000) for k in EDGE_KINDS})
+    f.update({f"aspect:{a}": (70 if q else 12000) for a in ASPECTS})
+    f["cases-compared"] = 180 if q else 30000
     f["seq:evaluations-after-edit"] = 2000 if q else 300000
     f["seq:state-changed-with-same-id-sets"] = 40 if q else 6000
     return f
@@ -280,37 +326,43 @@ class Transform:
         )
 
 
-def _bijection(rng, k, kind, gap_range, strings):
+def _bijection(rng, k, kind, role):
     ident = list(range(k))
     if kind == "perm":
         img = ident[:]
         while img == ident:
             rng.shuffle(img)
-    elif kind == "gap":
+    elif kind == "mixed":  # some labels ints, some strings (at least one of each when k >= 2)
+        ints = rng.sample(range(-5, 40), k)
+        strs = rng.sample(NODE_STR if role == "node" else EDGE_STR, k)
+        n_str = rng.randint(1, k - 1) if k >= 2 else rng.randint(0, 1)
+        which = set(rng.sample(ident, n_str))
+        img = [strs[i] if i in which else ints[i] for i in ident]
+        if all(isinstance(v, int) for v in img) and img == ident:
+            img[0] = 41
+    else:
         img = ident
         while img == ident:
-            img = rng.sample(gap_range, k)
-    else:
-        img = rng.sample(strings, k)
+            img = rng.sample(_pool(kind, role, rng), k)
     return dict(zip(ident, img))
 
 
 def relabel_nodes(rng, t, kind=None):
-    kind = kind or rng.choice(("perm", "gap", "str"))
+    kind = kind or rng.choice(NODE_KINDS)
     if kind == "perm" and t.n < 2:
-        kind = rng.choice(("gap", "str"))
+        kind = "gap"
     t.nkind = kind
-    t.nu = _bijection(rng, t.n, kind, range(-5, 40), NODE_STR)
+    t.nu = _bijection(rng, t.n, kind, "node")
 
 
 def relabel_edges(rng, t, kind=None):
     if t.m == 0:
         return
-    kind = kind or rng.choice(("perm", "gap", "str"))
+    kind = kind or rng.choice(EDGE_KINDS)
     if kind == "perm" and t.m < 2:
-        kind = rng.choice(("gap", "str"))
+        kind = "gap"
     t.ekind = kind
-    t.eps = _bijection(rng, t.m, kind, range(-3, 30), EDGE_STR)
+    t.eps = _bijection(rng, t.m, kind, "edge")
 
 
 def shuffle_nodes(rng, t):
@@ -329,17 +381,16 @@ def shuffle_members(rng, t):
 
 def gen_transform(rng, kind, idx, n, edges):
     t = Transform(n, edges)
-    kinds = ("perm", "gap", "str")
     if kind == "combined":
-        relabel_nodes(rng, t, kinds[idx % 3])
-        relabel_edges(rng, t, kinds[(idx // 3) % 3])
+        relabel_nodes(rng, t, NODE_KINDS[idx % len(NODE_KINDS)])
+        relabel_edges(rng, t, EDGE_KINDS[(idx // len(NODE_KINDS) + idx) % len(EDGE_KINDS)])
         shuffle_nodes(rng, t)
         shuffle_edges(rng, t)
         shuffle_members(rng, t)
     elif kind == "node-labels":
-        relabel_nodes(rng, t, kinds[idx % 3])
+        relabel_nodes(rng, t, NODE_KINDS[idx % len(NODE_KINDS)])
     elif kind == "edge-ids":
-        relabel_edges(rng, t, kinds[idx % 3])
+        relabel_edges(rng, t, EDGE_KINDS[idx % len(EDGE_KINDS)])
     else:
         which = idx % 4
         if which in (0, 3):
@@ -369,9 +420,9 @@ def events(t, attrs):
         byslot[s].append(v)
     ev = []
     for pos, e in enumerate(t.edge_seq):
-        ev += [("node", t.nu[v]) for v in byslot[pos]]
-        ev.append(("edge", t.eps[e], [t.nu[v] for v in t.member_seqs[e]], attrs[e]))
-    ev += [("node", t.nu[v]) for v in byslot[t.m]]
+        ev += [("node", fresh(t.nu[v])) for v in byslot[pos]]
+        ev.append(("edge", fresh(t.eps[e]), [fresh(t.nu[v]) for v in t.member_seqs[e]], attrs[e]))
+    ev += [("node", fresh(t.nu[v])) for v in byslot[t.m]]
     return ev
 
 
@@ -443,6 +494,23 @@ def c_nsetcount(p, N, E):
     return {frozenset(N(x) for x in s): c for s, c in p.items()}
 
 
+def c_subnet(p, N, E):
+    k, ns, mem = p
+    if ns is None:
+        return [k, None, None]
+    return [k, frozenset(N(x) for x in ns), {E(e): frozenset(N(x) for x in m) for e, m in mem.items()}]
+
+
+def c_nd_ed(p, N, E):
+    return [c_ndict(p[0], N, E), c_edict(p[1], N, E)]
+
+
+def c_tensor(p, N, E):
+    B, rows = p
+    lab = [N(r) for r in rows]
+    return [list(B.shape), {tuple(lab[i] for i in ix): B[ix].item() for ix in np.ndindex(*B.shape)}]
+
+
 def _c_matrix(rowmap, colmap):
     def canon(p, N, E):
         M, rows, cols = p
@@ -479,7 +547,17 @@ def _num(x):
     return isinstance(x, (int, float)) and not isinstance(x, bool)
 
 
-def diff(a, b, path="result"):
+# (measure, "node" | "edge", label kind) combinations the unchanged tree does not support (determined empirically, see ASSUMPTIONS):
+# the Trie behind every simpliciality measure sorts the members of an edge, so unorderable (mixed int / str) node labels raise TypeError
+UNSUPPORTED = {
+    (m, "node", "mixed")
+    for m in ("edit_simpliciality", "simplicial_edit_distance", "face_edit_simpliciality", "mean_face_edit_distance", "simplicial_fraction",
+              "local_simplicial_fraction", "local_edit_simpliciality", "local_face_edit_simpliciality")
+}
+TOL = {"node_edge_centrality": 1e-6}  # fixed-point iteration stopped at tol=1e-6
+
+
+def diff(a, b, path="result", REL=REL):
     """None when equal (numbers up to REL), else a short description of the first difference."""
     if _num(a) and _num(b):
         if a == b:
@@ -495,7 +573,7 @@ def diff(a, b, path="result"):
         if set(a) != set(b):
             return f"{path}: key sets differ: only-base={sorted(set(a) - set(b), key=repr)[:4]} only-relabelled={sorted(set(b) - set(a), key=repr)[:4]}"
         for k in a:
-            d = diff(a[k], b[k], f"{path}[{k!r}]")
+            d = diff(a[k], b[k], f"{path}[{k!r}]", REL)
             if d:
                 return d
         return None
@@ -503,7 +581,7 @@ def diff(a, b, path="result"):
         if len(a) != len(b):
             return f"{path}: lengths {len(a)} != {len(b)}"
         for i, (x, y) in enumerate(zip(a, b)):
-            d = diff(x, y, f"{path}[{i}]")
+            d = diff(x, y, f"{path}[{i}]", REL)
             if d:
                 return d
         return None
@@ -523,7 +601,7 @@ MEASURES = (
     "single_source_shortest_path_length", "density", "incidence_density", "degree_assortativity", "dynamical_assortativity",
     "edit_simpliciality", "simplicial_edit_distance", "face_edit_simpliciality", "mean_face_edit_distance", "simplicial_fraction",
     "local_simplicial_fraction", "local_edit_simpliciality", "local_face_edit_simpliciality", "maximal", "duplicates",
-    "katz_centrality", "incidence_matrix", "adjacency_matrix", "degree_matrix", "intersection_profile", "clique_motif_matrix",
+    "katz_centrality", "node_edge_centrality", "is_possible_order", "largest_connected_hypergraph", "adjacency_tensor", "incidence_matrix", "adjacency_matrix", "degree_matrix", "intersection_profile", "clique_motif_matrix",
     "laplacian", "multiorder_laplacian", "normalized_hypergraph_laplacian",
 )
 # measures that legitimately reject many inputs: require that enough *values* were compared
@@ -563,6 +641,10 @@ def catalogue(mon, H, fN, fE, par):
         cols = _labels(mon, cidx, M.shape[1], nodes() if ck == "n" else list(H.edges), nz)
         return (M, rows, cols)
 
+    def tensor(res):
+        B = np.asarray(res[0])
+        return (B, _labels(mon, res[1], B.shape[0] if B.ndim else 0, nodes(), bool(np.any(B != 0))))
+
     # -- degree / size statistics -------------------------------------------------
     add("degree", "H.nodes.degree.asdict()", lambda: H.nodes.degree.asdict(), c_ndict)
     add("degree", "H.degree()", lambda: H.degree(), c_ndict)
@@ -593,8 +675,13 @@ def catalogue(mon, H, fN, fE, par):
     add("unique_edge_sizes", "xgi.unique_edge_sizes(H)", lambda: xgi.unique_edge_sizes(H))
     add("is_uniform", "xgi.is_uniform(H)", lambda: xgi.is_uniform(H))
     add("max_edge_order", "xgi.max_edge_order(H)", lambda: xgi.max_edge_order(H))
+    for k in par["orders"]:
+        add("is_possible_order", f"xgi.is_possible_order(H, {k})", lambda k=k: xgi.is_possible_order(H, k))
+    add("is_possible_order", "xgi.is_possible_order(H, -1)", lambda: xgi.is_possible_order(H, -1))
     add("edge_neighborhood", "{n: xgi.edge_neighborhood(H, n) for n in H.nodes}",
         lambda: {n: xgi.edge_neighborhood(H, n) for n in H.nodes}, c_ndict_nsetbag)
+    add("edge_neighborhood", "{n: xgi.edge_neighborhood(H, <equal label>) for n in nodes}",
+        lambda: {n: xgi.edge_neighborhood(H, fresh(n)) for n in fN.values()}, c_ndict_nsetbag)
     add("edge_neighborhood", "{n: xgi.edge_neighborhood(H, n, include_self=True) for n in H.nodes}",
         lambda: {n: xgi.edge_neighborhood(H, n, include_self=True) for n in H.nodes}, c_ndict_nsetbag)
 
@@ -617,10 +704,21 @@ def catalogue(mon, H, fN, fE, par):
     add("largest_connected_component", "len(xgi.largest_connected_component(H))", lambda: len(xgi.largest_connected_component(H)))
     add("node_connected_component", "{n: xgi.node_connected_component(H, n) for n in H.nodes}",
         lambda: {n: xgi.node_connected_component(H, n) for n in H.nodes}, c_ndict_nset)
+    add("node_connected_component", "{n: xgi.node_connected_component(H, <equal label>) for n in nodes}",
+        lambda: {n: xgi.node_connected_component(H, fresh(n)) for n in fN.values()}, c_ndict_nset)
+
+    def lch():
+        sizes = sorted(len(c) for c in xgi.connected_components(H))
+        G = xgi.largest_connected_hypergraph(H)
+        if len(sizes) > 1 and sizes[-1] == sizes[-2]:  # tie: which component is kept depends on order
+            return (G.num_nodes, None, None)
+        return (G.num_nodes, set(G.nodes), G.edges.members(dtype=dict))
+
+    add("largest_connected_hypergraph", "xgi.largest_connected_hypergraph(H)  [nodes, members; size only on a tie]", lch, c_subnet)
     add("shortest_path_length", "dict(xgi.shortest_path_length(H))", lambda: dict(xgi.shortest_path_length(H)), c_nndict)
     src = par["source"]
     add("single_source_shortest_path_length", f"xgi.single_source_shortest_path_length(H, <image of node {src}>)",
-        lambda: xgi.single_source_shortest_path_length(H, fN[src]), c_ndict)
+        lambda: xgi.single_source_shortest_path_length(H, fresh(fN[src])), c_ndict)
 
     # -- densities ---------------------------------------------------------------------
     for fn in ("density", "incidence_density"):
@@ -662,7 +760,13 @@ def catalogue(mon, H, fN, fE, par):
     add("katz_centrality", f"xgi.katz_centrality(H, cutoff={par['cutoff']})", lambda: xgi.katz_centrality(H, cutoff=par["cutoff"]), c_ndict)
     add("katz_centrality", "H.nodes.katz_centrality.asdict()", lambda: H.nodes.katz_centrality.asdict(), c_ndict)
 
+    add("node_edge_centrality", "xgi.node_edge_centrality(H)", lambda: xgi.node_edge_centrality(H), c_nd_ed)
+    add("node_edge_centrality", "H.nodes.node_edge_centrality.asdict()", lambda: H.nodes.node_edge_centrality.asdict(), c_ndict)
+
     # -- matrices ----------------------------------------------------------------------------
+    for o, nm in par["tensor"]:
+        add("adjacency_tensor", f"xgi.adjacency_tensor(H, {o}, normalized={nm}, index=True)",
+            lambda o=o, nm=nm: tensor(xgi.adjacency_tensor(H, o, normalized=nm, index=True)), c_tensor)
     for o, sp in par["inc"]:
         add("incidence_matrix", f"xgi.incidence_matrix(H, order={o}, sparse={sp}, index=True)",
             lambda o=o, sp=sp: mat(xgi.incidence_matrix(H, order=o, sparse=sp, index=True), "n", "e"), c_mat_ne)
@@ -723,6 +827,7 @@ def gen_params(rng, n):
         "prof": rng.sample(_PROF, 2),
         "lap": [(1, False, False)] + rng.sample(_LAP, 3),
         "mlap": rng.sample(_MLAP, 3),
+        "tensor": rng.sample([(1, True), (1, False), (2, True), (2, False), (3, True)], 2),
     }
 
 
@@ -738,10 +843,10 @@ def evaluate(entry, N, E):
         return ("raised", type(exc).__name__, str(exc)[:160])
 
 
-def mismatch(a, b):
+def mismatch(a, b, m=None):
     """-> (clause, description) or None"""
     if a[0] == "value" and b[0] == "value":
-        d = diff(a[1], b[1])
+        d = diff(a[1], b[1], REL=TOL.get(m, REL))
         return ("value-differs", d) if d else None
     if a[0] == "raised" and b[0] == "raised":
         if a[1] == b[1]:
@@ -812,7 +917,7 @@ def run_case(mon, kind, idx, rng):
             mon.ev()
         return memo[k]
 
-    def attribute(label, a, b, clause, desc):
+    def attribute(m, label, a, b, clause, desc):
         """Which aspect of the transformation is responsible?  -> (tag, clause, desc, transformation, result).
         1. the first aspect (fixed priority) that reproduces a mismatch when applied alone;
         2. else the first aspect whose removal from the applied transformation makes the mismatch disappear;
@@ -821,17 +926,20 @@ def run_case(mon, kind, idx, rng):
             return t.tag(active[0]), clause, desc, t, b
         for asp in active:
             r = on_variant([asp], label)
-            mm1 = mismatch(a, r) if r is not None else None
+            mm1 = mismatch(a, r, m) if r is not None else None
             if mm1 is not None:
                 return t.tag(asp), mm1[0], mm1[1], t.restrict([asp]), r
         for asp in active:
             r = on_variant([x for x in active if x != asp], label)
-            if r is not None and mismatch(a, r) is None:
+            if r is not None and mismatch(a, r, m) is None:
                 return t.tag(asp), clause, desc, t, b
         return "combined", clause, desc, t, b
 
     fired = set()
     for m, label, _, _ in cat:
+        if (m, "node", t.nkind) in UNSUPPORTED or (m, "edge", t.ekind) in UNSUPPORTED:
+            mon.note(f"skipped-unsupported:{m}")
+            continue
         a, b = base[label], got[label]
         mon.ev()
         mon.note(f"cmp:{m}")
@@ -840,10 +948,10 @@ def run_case(mon, kind, idx, rng):
         elif a[0] == "raised" and b[0] == "raised" and a[1] == b[1]:
             mon.note(f"both-raised:{m}")
             mon.note(f"both-raised:{m}:{a[1]}")
-        mm = mismatch(a, b)
+        mm = mismatch(a, b, m)
         if mm is None:
             continue
-        tag, clause, desc, t_rep, b_rep = attribute(label, a, b, *mm)
+        tag, clause, desc, t_rep, b_rep = attribute(m, label, a, b, *mm)
         key = f"{m}|{tag}|{clause}"
         if key in fired:
             continue
